@@ -69,9 +69,9 @@ G1bCase(e1, e2, kind, i1, i2) ==
 G1b(z) == {G1bCase(e1, e2, k, i1, i2) : e1 \in FieldExprsB, e2 \in FieldExprsB, k \in {"struct", "enum"}, i1 \in ArgPairs, i2 \in ArgPairs}
 
 (* G1c: definitions in nested modules referring to each other, recursion through Box/Vec/Option<Box> *)
-RecKinds == {"box", "vec", "optbox", "mutual", "generic"}
+RecKinds == {"box", "vec", "optbox", "mutual", "generic", "posbox"}
 G1cCase(rk, docs) ==
-  LET D(n) == IF docs THEN <<"doc of " \o n, "second line">> ELSE <<>>
+  LET D(n) == IF docs THEN <<"doc of " \o n, "", " second paragraph after a blank line">> ELSE <<>>
       defs ==
         CASE rk = "box"    -> <<[Enum("L", Mod, <<>>, <<Variant("Nil", 0, <<>>), Variant("Cons", 1, <<SField("", u8), SField("", P_Box(A0("L")))>>)>>) EXCEPT !.docs = D("L")]>>
           [] rk = "vec"    -> <<[Struct("L", Mod \o <<"a", "b">>, <<>>, <<SField("kids", P_Vec(A0("L"))), SField("n", A0("N"))>>) EXCEPT !.docs = D("L")],
@@ -79,9 +79,12 @@ G1cCase(rk, docs) ==
           [] rk = "optbox" -> <<Struct("L", Mod, <<>>, <<SField("v", u8), SField("next", P_Opt(P_Box(A0("L"))))>>)>>
           [] rk = "mutual" -> <<Struct("L", Mod \o <<"x">>, <<>>, <<SField("b", P_Vec(A0("N")))>>),
                                 [Enum("N", Mod \o <<"y">>, <<>>, <<Variant("Leaf", 2, <<>>), Variant("Node", 5, <<SField("a", P_Box(A0("L")))>>)>>) EXCEPT !.docs = D("N")]>>
+          [] rk = "posbox" -> <<[Enum("L", Mod, <<>>, <<Variant("Nil", 0, <<>>), [Variant("Cons", 1, <<SField("", u32), SField("", P_Opt(P_Box(A0("L"))))>>) EXCEPT !.docs = D("Cons")]>>) EXCEPT !.docs = D("L")],
+                                Struct("Chain", Mod, <<>>, <<SField("", u8), SField("", P_Opt(P_Box(A0("Chain")))), SField("", P_Vec(P_Box(A0("L"))))>>),
+                                Struct("Hold", Mod, <<>>, <<SField("c", A0("Chain")), SField("t", P_Tup(<<u8, P_Opt(P_Box(A0("Hold")))>>))>>)>>
           [] rk = "generic" -> <<Struct("L", Mod, <<>>, <<SField("a", P_Adt("Q", <<u8>>)), SField("b", P_Adt("Q", <<bool>>))>>),
                                  Struct("Q", Mod, <<Param("T")>>, <<SField("v", T), SField("next", P_Vec(P_Adt("Q", <<T>>)))>>)>>
-  IN [fam |-> "G1c", prog |-> Program(defs \o Helpers, <<>>), roots |-> <<A0("L")>>]
+  IN [fam |-> "G1c", prog |-> Program(defs \o Helpers, <<>>), roots |-> IF rk = "posbox" THEN <<A0("L"), A0("Hold")>> ELSE <<A0("L")>>]
 G1c(z) == {G1cCase(rk, d) : rk \in RecKinds, d \in BOOLEAN}
 
 (* G7: a substitutable generic Sub<A,B> (and the prelude BTreeMap) in every position: field, nested in *)
@@ -150,6 +153,7 @@ G2Defs == <<
   V(Enum("FooE", Mod, <<>>, <<Variant("A", 0, <<>>), Variant("B", 1, <<SField("", u8)>>)>>)),
   V(Enum("FooE2", Mod, <<>>, <<Variant("A", 0, <<>>), Variant("B", 1, <<SField("", u16)>>)>>)),
   V(Enum("FooE3", Mod, <<>>, <<Variant("A", 0, <<>>), Variant("C", 1, <<SField("", u8)>>)>>)),
+  V(Enum("FooE4", Mod, <<>>, <<Variant("A", 0, <<>>), Variant("B", 1, <<SField("", u8)>>), Variant("C", 2, <<SField("", u32)>>)>>)),
   V(Struct("FooT", Mod, <<>>, <<SField("", u8)>>)),
   V(Struct("FooT2", Mod, <<>>, <<SField("", u8), SField("", u8)>>)),
   V(Struct("FooV", Mod, <<Param("T")>>, <<SField("a", T), SField("b", P_Vec(u32))>>)),
@@ -184,7 +188,7 @@ G2Shapes(z) == {[fam |-> "G2s", prog |-> ShapeProg(q[1], f, q[2], f), roots |-> 
 G2Prog == Program(G2Defs, <<CfgC1, CfgC2>>)
 G2Members == {P_Adt("FooG", <<u8>>), P_Adt("FooG", <<u16>>), P_Adt("FooG", <<bool>>), A0("FooC8"), A0("FooC16"),
               P_Adt("FooA", <<A0("C1")>>), P_Adt("FooA", <<A0("C2")>>), P_Adt("FooA2", <<A0("C1")>>), P_Adt("FooA2", <<A0("C2")>>),
-              A0("FooX"), A0("FooX2"), A0("FooE"), A0("FooE2"), A0("FooE3"), A0("FooT"), A0("FooT2"),
+              A0("FooX"), A0("FooX2"), A0("FooE"), A0("FooE2"), A0("FooE3"), A0("FooE4"), A0("FooT"), A0("FooT2"),
               P_Adt("FooV", <<u32>>), P_Adt("FooV", <<u8>>), P_Adt("FooG2", <<u8, bool>>), A0("FooR"), A0("FooR2"),
               P_Adt("FooA3", <<A0("C1"), u8, u16>>), P_Adt("FooA3", <<A0("C2"), u8, u16>>)}
 \* the (large) program is referenced by name so that the case records stay small: see ProgOf
